@@ -427,12 +427,28 @@ public:
 private:
   using T_OpDerefRet = tainted_volatile<std::remove_pointer_t<T>, T_Sbx>;
 
+  // The object designated by a dereference must not extend beyond the sandbox
+  // memory its first byte lies in. Otherwise the addresses of its fields (or
+  // accesses to it) would leave the sandbox.
+  template<typename T_Ptr>
+  static inline void check_pointee_in_sandbox(T_Ptr ptr)
+  {
+    auto start = reinterpret_cast<uintptr_t>(ptr);
+    auto last = start + sizeof(T_OpDerefRet) - 1;
+    detail::dynamic_check(
+      rlbox_sandbox<T_Sbx>::is_in_same_sandbox(
+        reinterpret_cast<const void*>(start),
+        reinterpret_cast<const void*>(last)),
+      "Dereferenced object extends beyond sandbox memory");
+  }
+
 public:
   inline T_OpDerefRet& operator*() const
   {
     static_assert(std::is_pointer_v<T>, "Operator * only allowed on pointers");
-    auto ret_ptr_const =
-      reinterpret_cast<const T_OpDerefRet*>(impl().get_raw_value());
+    auto ptr = impl().get_raw_value();
+    check_pointee_in_sandbox(ptr);
+    auto ret_ptr_const = reinterpret_cast<const T_OpDerefRet*>(ptr);
     // Safe - If T_OpDerefRet is not a const ptr, this is trivially safe
     //        If T_OpDerefRet is a const ptr, then the const is captured
     //        inside the wrapper
@@ -450,6 +466,7 @@ public:
                   "Operator -> only supported for pointer types");
     auto ptr = impl().get_raw_value();
     detail::dynamic_check(ptr != nullptr, "Dereferencing a null pointer");
+    check_pointee_in_sandbox(ptr);
     return reinterpret_cast<const T_OpDerefRet*>(ptr);
   }
 
